@@ -235,6 +235,9 @@ def run_sync(desc):
 
 CONSUMER_EVENTS = ("yield", "stop", "raise", "return", "closed", "kept", "mutated")
 IGNORED_FOR_TRACE = ("close", "close-raise") if __import__("os").environ.get("VF_STRICT_REPULL") else ("repull", "close", "close-raise")
+# WHEN a tool asks a re-iterable source for its iterator ("open") is compared only where laziness of opening is
+# the stdlib's documented behaviour
+OPEN_ORDER_TOOLS = ("chain", "chain_from_iterable")
 
 
 def mutate_source(b, op):
@@ -260,8 +263,11 @@ def consumer_view(log):
     return [e for e in log if e[0] in CONSUMER_EVENTS]
 
 
-def trace_view(log):
-    return [e for e in log if e[0] not in IGNORED_FOR_TRACE]
+def trace_view(log, opens=False):
+    out = [e for e in log if e[0] not in IGNORED_FOR_TRACE and (opens or e[0] != "open")]
+    while out and out[-1][0] == "open":
+        out.pop()  # opened but never asked for an item: not observable through the items
+    return out
 
 
 def first_diff(xs, ys):
